@@ -22,6 +22,9 @@ pub enum Case {
     /// `count` consecutive doubles starting `start` ulps after the double with bit pattern `anchor_bits`
     Floats { anchor_bits: u64, start: u64, count: u64 },
     DualStruct { id: u32 },
+    /// numbers with the same names in different orders loaded one after the other on one thread, and inside one
+    /// curve / one spline
+    PermutedNames { id: u32 },
     CalStruct { mask: u8, hols: u8 },
     UnionStruct { id: u32 },
     Named { name: String },
@@ -345,6 +348,22 @@ fn d2bits(x: &Dual2) -> Vec<u64> {
     v.extend(x.dual2().iter().map(|g| bits(*g)));
     v
 }
+fn dbits_named(x: &Dual) -> Vec<u64> {
+    let mut v = dbits(x);
+    for n in x.vars().iter() {
+        v.extend(n.bytes().map(|b| b as u64));
+        v.push(u64::MAX);
+    }
+    v
+}
+fn d2bits_named(x: &Dual2) -> Vec<u64> {
+    let mut v = d2bits(x);
+    for n in x.vars().iter() {
+        v.extend(n.bytes().map(|b| b as u64));
+        v.push(u64::MAX);
+    }
+    v
+}
 fn all3_spline_f64(rep: &mut Rep, s: &PPSpline<f64>) {
     let w = hooks::ppspline_f64_wrap(s.clone());
     rep.judge("json", "PPSplineF64", json_rt(&w).and_then(|(y, _)| same_spline(s, hooks::ppspline_f64_inner(&y), &fbits)));
@@ -485,6 +504,58 @@ pub fn check(case: &Case, idx: u64, acc: &mut Acc) {
             all3_dual(&mut rep, &d);
             let d2 = if nn == 0 { Dual2::new(-1.0 / 7.0, vec![]) } else { Dual2::try_new(-1.0 / 7.0, names, g, h).unwrap() };
             all3_dual2(&mut rep, &d2);
+            rep.acc.sample(|| serde_json::to_value(case).unwrap());
+        }
+        Case::PermutedNames { id } => {
+            let names = ["x", "y", "z"];
+            let perms = permutations(3);
+            let mk1 = |p: &Vec<usize>, salt: f64| Dual::try_new(1.25 + salt, p.iter().map(|i| names[*i].to_string()).collect(), p.iter().map(|i| (*i as f64 + 1.0) * 1.5 + salt).collect()).unwrap();
+            let mk2 = |p: &Vec<usize>, salt: f64| {
+                let g: Vec<f64> = p.iter().map(|i| (*i as f64 + 1.0) * 1.5 + salt).collect();
+                let mut h = vec![0.0; 9];
+                for (a, i) in p.iter().enumerate() {
+                    for (b, j) in p.iter().enumerate() {
+                        h[a * 3 + b] = 0.25 * ((i + 1) * (j + 1)) as f64 + salt;
+                    }
+                }
+                Dual2::try_new(0.75 + salt, p.iter().map(|i| names[*i].to_string()).collect(), g, h).unwrap()
+            };
+            rep.acc.nontrivial();
+            // (a) a run of separate loads
+            let order: Vec<usize> = (0..6).map(|k| (k * (*id as usize + 1) + *id as usize) % 6).collect();
+            for k in order.iter() {
+                let d = mk1(&perms[*k], *k as f64 * 0.125);
+                all3_dual(&mut rep, &d);
+                let d2 = mk2(&perms[*k], *k as f64 * 0.125);
+                all3_dual2(&mut rep, &d2);
+            }
+            // (b) inside one curve: nodes whose numbers list the same names in different orders
+            let xs = node_times(&[1, 1, 2]);
+            for order2 in [false, true] {
+                let mut m: IndexMap<chrono::NaiveDateTime, Number> = IndexMap::new();
+                for (j, x) in xs.iter().enumerate() {
+                    let p = &perms[(j + *id as usize) % 6];
+                    m.insert(ts_to_ndt(*x), if order2 { Number::Dual2(mk2(p, j as f64)) } else { Number::Dual(mk1(p, j as f64)) });
+                }
+                let c = VerifCurve::new(m, VerifInterp::Linear, if order2 { ADOrder::Two } else { ADOrder::One }, "p", Convention::Act360, Modifier::F, CalType::Cal(Cal::new(vec![], vec![5, 6])), None).unwrap();
+                all3_curve(&mut rep, &c, true);
+            }
+            // (c) inside one spline: coefficients with permuted lists
+            let t = vec![0.0, 0.0, 1.0, 2.0, 3.0, 3.0];
+            let s1 = PPSpline::<Dual>::new(2, t.clone(), Some((0..4).map(|j| mk1(&perms[(j + *id as usize) % 6], j as f64)).collect()));
+            let w1 = hooks::ppspline_dual_wrap(s1.clone());
+            rep.judge("json", "PPSplineDual", json_rt(&w1).and_then(|(y, _)| same_spline(&s1, hooks::ppspline_dual_inner(&y), &dbits_named)));
+            rep.judge("bincode", "PPSplineDual", bin_rt(&w1).and_then(|y| same_spline(&s1, hooks::ppspline_dual_inner(&y), &dbits_named)));
+            let s2 = PPSpline::<Dual2>::new(2, t, Some((0..4).map(|j| mk2(&perms[(j + 2 * *id as usize) % 6], j as f64)).collect()));
+            let w2 = hooks::ppspline_dual2_wrap(s2.clone());
+            rep.judge("json", "PPSplineDual2", json_rt(&w2).and_then(|(y, _)| same_spline(&s2, hooks::ppspline_dual2_inner(&y), &d2bits_named)));
+            rep.judge("bincode", "PPSplineDual2", bin_rt(&w2).and_then(|y| same_spline(&s2, hooks::ppspline_dual2_inner(&y), &d2bits_named)));
+            // (d) FX quotes with permuted names
+            let q1 = FXRate::try_new("eur", "usd", Number::Dual(mk1(&perms[*id as usize % 6], 0.0)), None).unwrap();
+            let q2 = FXRate::try_new("usd", "jpy", Number::Dual(mk1(&perms[(*id as usize + 3) % 6], 100.0)), None).unwrap();
+            if let Ok(fx) = FXRates::try_new(vec![q1, q2], None) {
+                all3_fx(&mut rep, &fx);
+            }
             rep.acc.sample(|| serde_json::to_value(case).unwrap());
         }
         Case::CalStruct { mask, hols } => {
@@ -699,6 +770,9 @@ pub fn cases(tier: Tier) -> Vec<Case> {
     for id in 0..24 {
         out.push(Case::DualStruct { id });
     }
+    for id in 0..12 {
+        out.push(Case::PermutedNames { id });
+    }
     for mask in 0..128u8 {
         for hols in 0..8u8 {
             out.push(Case::CalStruct { mask, hols });
@@ -769,7 +843,8 @@ pub fn run(ctx: &Ctx, replay_file: Option<String>) -> ! {
          as a dual number's value, gradient entry and Hessian entry, as a curve node value and index base, as an FX quote \
          (float and Dual), as a spline coefficient and knot, and sent through three channels: JSON of the type, the \
          tagged from_json entry point (hook), and bincode (the byte state of __getstate__/__setstate__). Structures: \
-         dual numbers with 0-3 names (unicode, quotes, empty); every week mask x holiday subsets for Cal; unions with \
+         dual numbers with 0-3 names (unicode, quotes, empty); numbers listing the same names in every order loaded \
+         one after the other on one thread and inside one curve / spline / FX market; every week mask x holiday subsets for Cal; unions with \
          None / [] / 1-2 settlement calendars; named calendars (name-only storage checked in the JSON text, full \
          1970-2200 behaviour compared); curves: 6 interpolators x 3 orders x 3 calendar kinds x 11 conventions x 5 \
          modifiers x index base on/off, and curves with a history of order switches; FX markets of 2-4 currencies x \
